@@ -43,6 +43,9 @@ class Engine:
         self.witnesses = set()
         self.notes = {}
         self.fresh = 0
+        self.fs = None
+        self.stdout = None
+        self.h = {}
 
     def _check(self, *extra):
         self.stats["queries"] += 1
@@ -811,6 +814,15 @@ class Engine:
             if parts[-1] in self.p.enums.get(en, ()) or en not in self.p.enums:
                 return Agg(fields, self.p.variant_index(en, parts[-1]), en)
         name = parts[-1]
+        if len(parts) == 1 and name not in self.p.structs:
+            # trimmed path: a bare variant name that is unique in scope
+            std = {"Start": "SeekFrom", "End": "SeekFrom", "Current": "SeekFrom", "Some": "Option", "None": "Option", "Ok": "Result", "Err": "Result",
+                   "Borrowed": "Cow", "Owned": "Cow", "Included": "Bound", "Excluded": "Bound", "Unbounded": "Bound", "Continue": "ControlFlow", "Break": "ControlFlow"}
+            owners = [en for en, vs in self.p.enums.items() if name in vs]
+            if name in std and not owners:
+                return Agg(fields, self.p.variant_index(std[name], name), std[name])
+            if len(owners) == 1:
+                return Agg(fields, self.p.variant_index(owners[0], name), owners[0])
         if name in ("Less", "Equal", "Greater") and not fields:
             return Agg([], {"Less": -1, "Equal": 0, "Greater": 1}[name], "Ordering")
         if len(parts) >= 2 and parts[-2][:1].isupper() and parts[-2] not in self.p.structs and parts[-1][:1].isupper() and parts[-2] not in ("Self",):
@@ -858,6 +870,10 @@ class Engine:
             if isinstance(inner, (Agg, FnItem)) or isinstance(inner, Ref):
                 return self.call_closure(inner, args) if not isinstance(inner, Agg) else self._call_closure_agg(inner, clo, args)
         if isinstance(clo, FnItem):
+            base = strip_generics(clo.path).split("::")
+            if base[-1] in ("Some", "Ok", "Err") or (len(base) >= 2 and base[-2] in self.p.enums and base[-1] in self.p.enums[base[-2]]) or \
+               (base[-1][:1].isupper() and base[-1] in self.p.structs and self.p.resolve(clo.path) is None):
+                return self.adt(None, clo.path, list(args))
             return self.call(clo.path, args)
         if isinstance(clo, Agg):
             return self._call_closure_agg(clo, Ref(Cell(clo)), args)
